@@ -283,7 +283,7 @@ def run_check(pid, tier, seed):
         # confirm in a fresh process: the same case must fail again
         if v.get("case") is not None and not v.get("no_confirm"):
             cp = subprocess.run([sys.executable, "-m", "mc.main", pid, "--replay", path, "--confirm"], cwd=ROOT, capture_output=True, text=True)
-            if cp.returncode != 1 and v.get("worker"):
+            if cp.returncode not in (1, 3) and v.get("worker"):
                 # not reproducible in isolation: does it reproduce after the cases the same worker process ran before it
                 # (behaviour that depends on the history of calls in the process, e.g. a module-level cache)?
                 cp = subprocess.run([sys.executable, "-m", "mc.main", pid, "--replay", path, "--confirm", "--history"], cwd=ROOT, capture_output=True, text=True)
@@ -295,9 +295,15 @@ def run_check(pid, tier, seed):
                     with open(path, "w") as f:
                         json.dump(rp, f, indent=1, default=str)
                     v["message"] = rp["message"]
-            if cp.returncode != 1:
-                sys.stderr.write("ENGINE ERROR: violation %s of %s did not reproduce in a fresh process (rc=%s)\n%s\n%s\n" % (sig, pid, cp.returncode, cp.stdout[-2000:], cp.stderr[-2000:]))
-                return 2
+            if cp.returncode == 3:
+                # the case fails again on replay, but the first difference found is another one (e.g. another field of the annotation): still the same failing case
+                v["message"] = "(on replay the same case fails with another signature) " + (v.get("message") or "")
+            elif cp.returncode != 1:
+                # Observed by the exploring worker but reproduced neither in isolation nor after the worker's case history. On the unchanged tree no
+                # violation reaches this point; on a changed tree this means the behaviour depends on state the replay does not rebuild (hash seed,
+                # object addresses, files left behind). It is reported - as unconfirmed - rather than hidden behind an engine error.
+                sys.stderr.write("note: violation %s of %s did not reproduce on replay (rc=%s)\n" % (sig, pid, cp.returncode))
+                v["message"] = "(observed by the exploring worker; NOT reproduced on replay - depends on process state the replay does not rebuild) " + (v.get("message") or "")
         replay_paths.append(path)
         lines.append("VIOLATION property=%s replay=%s" % (pid, path))
         lines.append("  signature=%s cases=%d first: %s" % (sig, sigcount[sig], (v.get("message") or "")[:300]))
@@ -384,7 +390,8 @@ def run_replay(pid, path, confirm=False, history=False):
     res = safe_run_case(mod, rp["case"])
     sigs = [v["signature"] for v in res.get("violations") or []]
     if confirm:
-        return 1 if rp["signature"] in sigs else 0
+        known_sigs = {k["signature"] for k in load_known() if k.get("property") == pid and k.get("status") == "known"}
+        return 1 if rp["signature"] in sigs else (3 if any(x not in known_sigs for x in sigs) else 0)
     known_active = {k["signature"] for k in load_known() if k.get("property") == pid and k.get("status") == "known"}
     rc = 0
     for v in res.get("violations") or []:
